@@ -170,7 +170,10 @@ class Translator:
         if q.endswith('*'):
             e = self.ctype(q[:-1].strip())
             return CType('ptr', e.c + ' *', raw=raw, elem=e)
-        for pat, cls, c in self.cfg.get('type_rules', []):
+        for rule in self.cfg.get('type_rules', []):
+            pat, cls, c = rule[0], rule[1], rule[2]
+            if len(rule) > 3 and not (getattr(self, 'cur_cname', '') or '').startswith(rule[3]):
+                continue
             if re.search(pat, q):
                 return CType(cls, c, raw=raw)
         if q in BUILTINS: return CType('builtin', BUILTINS[q], raw=raw)
@@ -285,7 +288,7 @@ class Translator:
         opmap = {'operator()': 'call', 'operator bool': 'to_bool', 'operator==': 'eq', 'operator!=': 'ne', 'operator<': 'lt'}
         if k == 'CXXConstructorDecl':
             if not ps: base = 'ctor'
-            elif len(ps) == 1 and self.canon(self.qt(ps[0]))[0] == oq:
+            elif len(ps) == 1 and (self.canon(self.qt(ps[0]))[0] == oq or self.canon(self.qt(ps[0]))[0] in self.cfg.get('alt_names', {}).get(oq, [])):
                 base = 'ctor_move' if self.qt(ps[0]).strip().endswith('&&') else 'ctor_copy'
             else: base = 'ctor' + str(len(ps))
         elif k == 'CXXDestructorDecl': base = 'dtor'
@@ -377,10 +380,12 @@ class Translator:
             if src.cls == 'ptr' and dst.cls == 'ptr':
                 # pointer to derived -> pointer to base
                 se, de = src.elem, dst.elem
+                if se.c == de.c: return e
                 if se.cls == de.cls and se.cls in ('sp', 'wp', 'atomic', 'mutex', 'function'): return e
                 if se.cls == 'record' and de.cls == 'record': return f'(&({e})->base_{de.c})'
                 if se.cls == 'record' and de.cls in ('wp', 'list'): return f'(&({e})->base)'
             if src.cls == 'record' and dst.cls == 'record':
+                if src.c == dst.c: return e
                 return f'({e}).base_{dst.c}'
             if src.cls == 'record' and dst.cls in ('wp', 'list'):
                 return f'({e}).base'
@@ -709,6 +714,13 @@ class Translator:
                 return f'WLIST_SPLICE_ALL({optr()}, {self.E(args[0], cx)}, {self.addr_of(args[1], cx)})'
             if name == 'splice' and len(args) == 3:
                 return f'WLIST_SPLICE_ONE({optr()}, {self.E(args[0], cx)}, {self.addr_of(args[1], cx)}, {self.E(args[2], cx)})'
+        if cls == 'vector':
+            if name == 'begin': return f'WVEC_BEGIN({optr()})'
+            if name == 'end': return f'WVEC_END({optr()})'
+            if name == 'clear': return f'WVEC_CLEAR({optr()})'
+            if name == 'empty': return f'WVEC_EMPTY({optr()})'
+            if name == 'push_back' and len(args) == 1: return f'WVEC_PUSH_BACK({optr()}, {self.addr_of(args[0], cx)})'
+            if name == 'erase' and len(args) == 1: return f'WVEC_ERASE({optr()}, {self.E(args[0], cx)})'
         if cls == 'condvar':
             if name == 'notify_one': return f'CONDVAR_NOTIFY_ONE({optr()})'
             if name == 'notify_all': return f'CONDVAR_NOTIFY_ALL({optr()})'
@@ -797,6 +809,16 @@ class Translator:
             if nm == 'operator*': return f'(*{self.E(a0, cx)})'
             if nm in ('operator==', 'operator!='):
                 return f'({self.E(a0, cx)} {nm[8:]} {self.E(args[1], cx)})'
+        if cls == 'vecit':
+            if nm == 'operator!=': return f'WVIT_NE({self.E(a0, cx)}, {self.E(args[1], cx)})'
+            if nm == 'operator==': return f'(!WVIT_NE({self.E(a0, cx)}, {self.E(args[1], cx)}))'
+            if nm == 'operator++': return f'WVIT_INC({self.addr_of(a0, cx)})'
+            if nm == 'operator->': return f'WVIT_DEREF({self.E(a0, cx)})'
+            if nm == 'operator*': return f'(*WVIT_DEREF({self.E(a0, cx)}))'
+        if cls == 'vector' and nm == 'operator=':
+            mv = self.is_move_call(args[1])
+            if mv is not None: return f'WVEC_ASSIGN_MOVE({self.addr_of(a0, cx)}, {self.addr_of(mv, cx)})'
+            return f'WVEC_ASSIGN_COPY({self.addr_of(a0, cx)}, {self.addr_of(args[1], cx)})'
         if cls == 'listit':
             if nm == 'operator!=': return f'WIT_NE({self.E(a0, cx)}, {self.E(args[1], cx)})'
             if nm == 'operator==': return f'(!WIT_NE({self.E(a0, cx)}, {self.E(args[1], cx)}))'
@@ -859,11 +881,22 @@ class Translator:
             t = self.ctype(self.qt(self.skip(args[0])))
             if t.cls == 'list':
                 return f'WLIST_SWAP({self.addr_of(args[0], cx)}, {self.addr_of(args[1], cx)})'
+            if t.cls == 'vector':
+                return f'WVEC_SWAP({self.addr_of(args[0], cx)}, {self.addr_of(args[1], cx)})'
+            if t.cls in ('ptr', 'builtin'):
+                return f'SCALAR_SWAP({self.addr_of(args[0], cx)}, {self.addr_of(args[1], cx)})'
             if t.cls == 'sp':
                 return f'SP_SWAP({self.addr_of(args[0], cx)}, {self.addr_of(args[1], cx)})'
             if t.cls == 'record' and rd is not None and self.byid.get(rd['id']) is not None and self.has_body(self.byid[rd['id']]):
                 return self.call_function(self.byid[rd['id']], None, args, cx)
             raise Unsupported(f'swap of {t} in {cx.cname}')
+        if nm == 'find_if' and len(args) == 3:
+            lam = self.skip(args[2])
+            while lam.get('kind') == 'CXXConstructExpr' and len(lam.get('inner', [])) == 1: lam = self.skip(lam['inner'][0])
+            if lam.get('kind') != 'LambdaExpr': raise Unsupported(f'std::find_if without a lambda in {cx.cname}')
+            clos = self.E(lam, cx); lt = self.ctype(self.qt(lam)); t = cx.tmp('pred')
+            cx.pre.append(f'{lt.c} {t} = {clos};')
+            return f'WVEC_FIND_IF({self.E(args[0], cx)}, {self.E(args[1], cx)}, {lt.c}_call, &{t})'
         if nm == 'get' and len(args) == 1:
             ct = self.skip(n['inner'][0]).get('type', {}).get('qualType', '')
             m = re.search(r'tuple_element<(\d+)', ct)
@@ -956,7 +989,7 @@ class Translator:
             return f'{t.c}_COPY({self.addr_of(args[0], cx)})'
         if t.cls in ('builtin',) and len(args) == 1:
             return self.E(args[0], cx)
-        if t.cls == 'listit' and len(args) == 1:
+        if t.cls in ('listit', 'vecit') and len(args) == 1:
             return self.E(args[0], cx)
         if t.cls == 'empty':
             return '0'
@@ -1414,6 +1447,8 @@ class Translator:
         self.queue.append(decl)
 
     def emit_function(self, decl):
+        oq0 = self.owner_of.get(decl['id'])
+        self.cur_cname = (self.cname_of_record(oq0) + '_') if oq0 else self.free_fn_context(decl)
         cn = self.func_cname(decl)
         oq = self.owner_of.get(decl['id'])
         is_static = decl.get('storageClass') == 'static'
@@ -1428,6 +1463,15 @@ class Translator:
             sk = Ctx(self, cn)
             sk.self_type = cx.self_type; sk.skel = True
             self.emit_function_text(decl, cn + '__skel', selfp, body, sk)
+
+    def free_fn_context(self, decl):
+        """context prefix of a free function template instantiation: taken from its first template argument"""
+        for a in decl.get('inner', []):
+            if a.get('kind') == 'TemplateArgument':
+                tq = strip_ns(a.get('type', {}).get('qualType', ''))
+                for q, c in self.cnames.items():
+                    if tq.startswith(q): return c + '_'
+        return ''
 
     def emit_function_text(self, decl, cn, selfp, body, cx):
         if not hasattr(cx, 'self_type'): cx.self_type = None
@@ -1519,6 +1563,7 @@ class Translator:
                     out.append(f'/* {nm}: no initialiser -> indeterminate (left nondeterministic) */')
                 elif t.cls == 'list': out.append(f'WLIST_MEMBER_INIT(&self->{nm}, self, {nm});')
                 elif t.cls == 'condvar': out.append(f'CONDVAR_INIT(&self->{nm});')
+                elif t.cls == 'vector': out.append(f'WVEC_INIT(&self->{nm});')
                 else: raise Unsupported(f'default-initialisation of field {nm} : {t} in {cx.cname}')
                 continue
             e = ci['inner'][0]; s = self.skip(e)
@@ -1531,6 +1576,13 @@ class Translator:
                 raise Unsupported(f'list member {nm} is not default-constructed in {cx.cname}')
             if t.cls == 'condvar':
                 out.append(f'CONDVAR_INIT(&self->{nm});'); continue
+            if t.cls == 'vector':
+                if s.get('kind') == 'CXXConstructExpr' and not s.get('inner'): out.append(f'WVEC_INIT(&self->{nm});'); continue
+                if s.get('kind') == 'CXXConstructExpr' and len(s['inner']) == 1:
+                    mv = self.is_move_call(s['inner'][0])
+                    if mv is not None: out.append(f'WVEC_CTOR_MOVE(&self->{nm}, {self.addr_of(mv, cx)});'); continue
+                    out.append(f'WVEC_CTOR_COPY(&self->{nm}, {self.addr_of(s["inner"][0], cx)});'); continue
+                raise Unsupported(f'vector member {nm} construction in {cx.cname}')
             if t.cls == 'rawbuf':
                 out.append(f'/* {nm}: raw storage, value-initialised bytes carry no object */'); continue
             if t.cls == 'atomic':
@@ -1563,6 +1615,8 @@ class Translator:
                 out.append(f'SP_RELEASE(&self->{f["name"]});')
             elif t.cls == 'list' and not t.ref:
                 out.append(f'WLIST_DTOR(&self->{f["name"]});')
+            elif t.cls == 'vector' and not t.ref:
+                out.append(f'WVEC_DTOR(&self->{f["name"]});')
         return out
 
     # ------------------------------------------------------------------ driver
